@@ -13,7 +13,22 @@ MANIFEST = dict(
     technique="Lean 4 proof over a parametric model + constants regenerated from source + dense differential correspondence run",
     design="5/C04",
 )
-GEN = ["Versions", "VersionLib"]
+GEN = ["Versions"]
+# supplementary (the pure utilities of versioning.py: not stated by the property text; INFO only, see Props/C04Supp.lean)
+SUPP_GEN = ["VersionLib"]
+SUPP_THEOREMS = [
+    "c04_versionlib_translated",
+    "c04_negotiate_first_common",
+    "c04_negotiate_raises_iff_disjoint",
+    "c04_compatible_iff",
+    "c04_compare_spec",
+    "c04_compare_total_order",
+    "c04_compare_is_date_order",
+    "c04_compare_matches_c13_model",
+    "c04_parse_iff_valid",
+    "c04_current_minimum_bounds",
+    "c04_version_info_flags",
+]
 THEOREMS = [
     "c04_translated",
     "c04_answer_supported",
@@ -33,17 +48,6 @@ THEOREMS = [
     "c04_earlier_answers_unaffected",
     "c04_handlers_independent",
     "c04_handshake_sound_any_choice",
-    "c04_versionlib_translated",
-    "c04_negotiate_first_common",
-    "c04_negotiate_raises_iff_disjoint",
-    "c04_compatible_iff",
-    "c04_compare_spec",
-    "c04_compare_total_order",
-    "c04_compare_is_date_order",
-    "c04_compare_matches_c13_model",
-    "c04_parse_iff_valid",
-    "c04_current_minimum_bounds",
-    "c04_version_info_flags",
 ]
 RULE = (
     "server: requested protocolVersion in {each supported version, every calendar date 1925-01-01..2124-12-31, seeded dddd-dd-dd strings "
@@ -588,9 +592,10 @@ class Handshake(Suite):
 
 
 class Informational(Suite):
-    """A supplementary correspondence (obligations not implied by the property text): a difference between the real function and
-    the model is RECORDED (evidence notes + distribution bucket `supplementary-divergence/<suite>`), it is not a broken
-    obligation of the property.  The theorems about the regenerated functions are audited like all others."""
+    """A supplementary correspondence (obligations not implied by the property text): the runner records a difference between the
+    real function and the model as an evidence note and an INFO line, never as a broken obligation of the property."""
+
+    supplementary = True
 
     def cases(self, ctx, budget):
         self._ctx = ctx
@@ -600,15 +605,7 @@ class Informational(Suite):
         return None if canon(o) == canon(m) else "observations differ"
 
     def compare(self, case, o, m):
-        d = self.differs(case, o, m)
-        if d is not None:
-            ctx = getattr(self, "_ctx", None)
-            if ctx is not None:
-                ctx.dist["supplementary-divergence/" + self.name] += 1
-                if sum(1 for n in ctx.notes if n.startswith("supplementary divergence")) < 10:
-                    ctx.notes.append(f"supplementary divergence ({self.name}): {d}: input {canon(case)[:300]} real {canon(o)[:300]} "
-                                     f"model {canon(m)[:300]}")
-        return None
+        return self.differs(case, o, m)
 
 
 class VersionLibrary(Informational):
